@@ -28,12 +28,12 @@ package probe
 import (
 	"encoding/hex"
 	"fmt"
-	"strings"
 	"sync"
 
 	"github.com/polynetwork/poly/common"
 	"github.com/polynetwork/poly/native"
 	"github.com/polynetwork/poly/native/event"
+	_ "github.com/polynetwork/poly/native/service" // registers the 8 real contracts (genesis initConfig, nested real calls)
 	ccm "github.com/polynetwork/poly/native/service/cross_chain_manager"
 	scom "github.com/polynetwork/poly/native/service/cross_chain_manager/common"
 	"github.com/polynetwork/poly/native/service/utils"
@@ -174,11 +174,10 @@ func Decode(b []byte) (Script, error) {
 		if op.Name, eof = src.NextString(); eof {
 			return nil, fmt.Errorf("probe: truncated script")
 		}
-		var irr bool
-		if op.Flag, irr, eof = src.NextBool(); eof || irr {
+		if op.Flag, eof = src.NextBool(); eof {
 			return nil, fmt.Errorf("probe: truncated script")
 		}
-		if op.Raw, irr, eof = src.NextBool(); eof || irr {
+		if op.Raw, eof = src.NextBool(); eof {
 			return nil, fmt.Errorf("probe: truncated script")
 		}
 		if op.U64, eof = src.NextUint64(); eof {
@@ -229,7 +228,12 @@ func popPath(svc *native.NativeService) {
 func curPath(svc *native.NativeService) string {
 	pathMu.Lock()
 	defer pathMu.Unlock()
-	return strings.Join(paths[svc], ".")
+	st := paths[svc]
+	if len(st) == 0 {
+		return ""
+	}
+	return st[len(st)-1] // entries are full paths already
+
 }
 
 func echo(svc *native.NativeService, path, kind, a, b string) {
